@@ -1,3 +1,4 @@
 import BufModel.Path
 import BufModel.Bucket
 import BufModel.Faults
+import BufModel.Cache
